@@ -50,8 +50,9 @@ def _ren_proj(e, loff):
 
 
 class FlatBody(Body):
-    def __init__(self, prog, raw, origin, inlined, envs=None):
+    def __init__(self, prog, raw, origin, inlined, envs=None, lorigin=None):
         Body.__init__(self, prog, raw)
+        self.lorigin = lorigin or []  # per local: (original body path, original local)
         self.origin = origin          # per block: (original body path, original bb)
         self.inlined = inlined        # paths of the bodies that were inlined (at least once)
         self.envs = envs or []        # per block: generic parameter name -> closure def, in this inlining context
@@ -62,6 +63,9 @@ class FlatBody(Body):
 
     def origin_body(self, bb):
         return self.prog.bodies[self.origin[bb][0]]
+
+    def local_key(self, l):
+        return self.lorigin[l] if l < len(self.lorigin) else (self.path, l)
 
     def orig_site(self, site):
         """The same call/drop as a Site of the original program."""
@@ -88,6 +92,7 @@ def default_policy(prog, stop=()):
 def flatten(prog, body, policy=None, depth=4, max_blocks=6000, env0=None):
     policy = policy or default_policy(prog)
     locals_ = list(body.locals)
+    lorigin = [(body.path, j) for j in range(len(body.locals))]
     names = [dict(n) for n in body.raw.get("names", [])]
     blocks = []
     origin = []
@@ -118,6 +123,7 @@ def flatten(prog, body, policy=None, depth=4, max_blocks=6000, env0=None):
                 tgt, how = tgts[0]
                 if tgt.path not in stack and policy(osite, tgt, how) and len(tgt.blocks) + len(blocks) < max_blocks:
                     _inline(prog, blocks, origin, meta, locals_, names, i, tgt, how, d, stack, env)
+                    lorigin.extend((tgt.path, j) for j in range(len(tgt.locals)))
                     inlined.add(tgt.path)
         i += 1
     if inlined:
@@ -126,7 +132,7 @@ def flatten(prog, body, policy=None, depth=4, max_blocks=6000, env0=None):
     raw["blocks"] = blocks
     raw["locals"] = locals_
     raw["names"] = names
-    return FlatBody(prog, raw, origin, inlined, [m[2] for m in meta])
+    return FlatBody(prog, raw, origin, inlined, [m[2] for m in meta], lorigin)
 
 
 TRY_BRANCH = "std::ops::Try::branch"
